@@ -233,7 +233,7 @@ func ruleAnyGate(c *Ctx) []Obligation {
 	}
 	// node types the compiler validates at runtime: first argument `node.X` of the cast-instruction constructor
 	validated := map[*types.Named]bool{}
-	castCtor := map[*types.Func]bool{}
+	castCtor := map[*types.Func]int{} // function → index of the argument that carries the type to validate against
 	for _, fd := range AllFuncDecls(cp) {
 		if fd.Body == nil || fd.Recv != nil {
 			continue
@@ -242,12 +242,48 @@ func ruleAnyGate(c *Ctx) []Obligation {
 			if kv, ok := n.(*ast.KeyValueExpr); ok {
 				if k := ResolveConst(cp, fd, kv.Value, 0); k != nil && k.Name() == "Opcode_Cast" {
 					if fn, ok := cp.TypesInfo.Defs[fd.Name].(*types.Func); ok {
-						castCtor[fn] = true
+						castCtor[fn] = 0
 					}
 				}
 			}
 			return true
 		})
+	}
+	// wrappers: a function that hands one of its own parameters on as that argument
+	for changed := true; changed; {
+		changed = false
+		for _, fd := range AllFuncDecls(cp) {
+			if fd.Body == nil {
+				continue
+			}
+			self, _ := cp.TypesInfo.Defs[fd.Name].(*types.Func)
+			if _, done := castCtor[self]; done || self == nil {
+				continue
+			}
+			ast.Inspect(fd.Body, func(n ast.Node) bool {
+				call, ok := n.(*ast.CallExpr)
+				if !ok {
+					return true
+				}
+				fn := CalleeOf(cp.TypesInfo, call)
+				idx, isCtor := castCtor[fn]
+				if fn == nil || !isCtor || idx >= len(call.Args) {
+					return true
+				}
+				id, ok := ast.Unparen(call.Args[idx]).(*ast.Ident)
+				if !ok {
+					return true
+				}
+				sig := self.Type().(*types.Signature)
+				for i := 0; i < sig.Params().Len(); i++ {
+					if cp.TypesInfo.Uses[id] == sig.Params().At(i) {
+						castCtor[self] = i
+						changed = true
+					}
+				}
+				return true
+			})
+		}
 	}
 	for _, fd := range AllFuncDecls(cp) {
 		if fd.Body == nil {
@@ -258,10 +294,12 @@ func ruleAnyGate(c *Ctx) []Obligation {
 			if !ok || len(call.Args) == 0 {
 				return true
 			}
-			if fn := CalleeOf(cp.TypesInfo, call); fn == nil || !castCtor[fn] {
+			fn := CalleeOf(cp.TypesInfo, call)
+			idx, isCtor := castCtor[fn]
+			if fn == nil || !isCtor || idx >= len(call.Args) {
 				return true
 			}
-			if sel, ok := ast.Unparen(call.Args[0]).(*ast.SelectorExpr); ok {
+			if sel, ok := ast.Unparen(call.Args[idx]).(*ast.SelectorExpr); ok {
 				if t := cp.TypesInfo.TypeOf(sel.X); t != nil {
 					if nm := recvNamed(t); nm != nil {
 						validated[nm] = true
